@@ -137,6 +137,9 @@ def pdiff(a, b, grid):
     return d
 
 
+MASK_OP_LIMIT = 600  # cells; above this the (quadratic) model labeller is replaced by scipy's labelling as input
+
+
 def sphere_radius(vol, dim):
     return {1: vol / 2, 2: math.sqrt(vol / math.pi), 3: (3 * vol / (4 * math.pi)) ** (1 / 3)}[dim]
 
@@ -213,8 +216,15 @@ def check_mask(ck: Check, grid, mask, reqs, expect, case, sig):
     if len(surv) != len(cands):
         ck.count("some_candidate_removed")
     # ---- model request
-    reqs.append(f"c02 merge {dim} " + " ".join(map(str, shape)) + " " + " ".join(str(int(p)) for p in grid.periodic) + " " + " ".join(map(str, lab.flat)))
-    expect.append((case, grid, cands, cellvol))
+    head = f"{dim} " + " ".join(map(str, shape)) + " " + " ".join(str(int(p)) for p in grid.periodic) + " "
+    if mask.size <= MASK_OP_LIMIT:
+        # whole pipeline in the model: verified labeller (Props/C02 `labelExec_isLabelling`) + merge loop
+        reqs.append("c02 mask " + head + " ".join(str(int(b)) for b in mask.flat))
+        expect.append((case, grid, cands, cellvol, [int(x) for x in lab.flat]))
+        ck.count("model_labels_the_mask")
+    else:
+        reqs.append("c02 merge " + head + " ".join(map(str, lab.flat)))
+        expect.append((case, grid, cands, cellvol, None))
 
 
 def compare_model(ck: Check, reqs, expect):
@@ -223,10 +233,16 @@ def compare_model(ck: Check, reqs, expect):
     except RuntimeError as e:
         ck.mismatch("c02-merge", f"driver unavailable: {e}", {})
         return
-    for (case, grid, cands, cellvol), out in zip(expect, outs):
+    for (case, grid, cands, cellvol, scipy_lab), out in zip(expect, outs):
         if not out.startswith("ok"):
             ck.mismatch("c02-merge", f"model answered {out}", case)
             continue
+        if scipy_lab is not None:
+            labs, _, rest = out[2:].partition("|")
+            model_lab = [int(x) for x in labs.split()]
+            if model_lab != scipy_lab:
+                ck.mismatch("c02-label", f"scipy.ndimage.label differs from the verified labeller: scipy {scipy_lab} model {model_lab}", case)
+            out = "ok " + rest.strip()
         dim = grid.num_axes
         dx = np.array(grid.discretization)
         lo = np.array([b[0] for b in grid.axes_bounds])
